@@ -250,6 +250,9 @@ fn disambiguate_short(
 pub use inner::State;
 /// Hides [`State`] internal implementation
 mod inner {
+    #[cfg(bpaf_verif)]
+    #[allow(unused_imports)]
+    use crate::verif::std;
     use std::{ops::Range, rc::Rc};
 
     use crate::{error::Message, item::Item, Args};
